@@ -115,7 +115,7 @@ structure Fce where
 
 /-- `fcache_get_mmap` -/
 def fcacheGetMmap (cfg : Cfg) (fidx pos : Nat) (orc : List Ext) : Out Fce :=
-  if pos - pos % cfg.pgsz ≥ cfg.filesz then ⟨.err .nodata, [], orc⟩
+  if pos - pos % cfg.pgsz ≥ cfg.filesz then ⟨.err .eof, [], orc⟩
   else
     let blkpos := pos - pos % cfg.mmapsz
     let key := blkpos ||| fidx
